@@ -34,7 +34,7 @@ P = ScenarioProperty(
     lambda sc: [C06Checker(sc)],
     _judge,
     quick=3200,
-    thorough=60000, machine={},
+    thorough=60000, machine={"budget": (640, 12000)},
 )
 run_shard = P.run_shard
 replay = P.replay
